@@ -517,6 +517,46 @@ def make_hv_post(points_form):
     return post
 
 
+def make_fit_transform_post(points_form):
+    """linear_fit_transform: the fitted values of the end-point line; with vertical=True the (target, fitted) pair of
+    whichever of the two end-point lines (y on x, x on y) has the smaller residual sum - the y line on a tie."""
+    def post(ctx, original, args, kwargs, result):
+        b = bind(('points', 'vertical') if points_form else ('x', 'y', 'vertical'), {'vertical': False}, args, kwargs)
+        if b is None:
+            return ctx.ood('wrapper', 'unbound')
+        if points_form:
+            if not _is_points(b[0]):
+                return ctx.ood('wrapper', 'shape')
+            x, y = _xy(b[0])
+        else:
+            x, y = b[0], b[1]
+            if not (is_vec(x) and is_vec(y)) or len(x) != len(y) or len(x) < 1:
+                return ctx.ood('wrapper', 'shape')
+        vertical = b[-1]
+        fit = install.orig('linear_fit', 'linear_fit')
+        R = install.orig('metrics', 'residuals')
+        b1, m1 = fit(x, y)
+        y_hat = x * m1 + b1
+        label = 'lf.linear_fit_transform' + ('_points' if points_form else '')
+        if not vertical:
+            ok = isinstance(result, np.ndarray) and same(result, y_hat)
+            ctx.check(ok, 'wrapper', f'wrapper:{label}', f'{label} differs from the end-point line evaluated at x', x=x, y=y,
+                      got=result, expected=y_hat)
+            return
+        b2, m2 = fit(y, x)
+        x_hat = y * m2 + b2
+        r1, r2_ = R(y, y_hat), R(x, x_hat)
+        if not (np.isfinite(r1) and np.isfinite(r2_)):
+            return ctx.ood('wrapper', 'nonfinite residuals')
+        exp = (y, y_hat) if r1 <= r2_ else (x, x_hat)
+        ok = isinstance(result, tuple) and len(result) == 2 and same(result[0], exp[0]) and same(result[1], exp[1])
+        ctx.check(ok, 'wrapper', f'wrapper:{label}:vertical',
+                  f'{label}(vertical=True) is not the (target, fitted) pair of the end-point line with the smaller residuals '
+                  f'(y-line {r1!r}, x-line {r2_!r})', x=x, y=y, got=result, expected=exp)
+        ctx.h('fit_transform_vertical', 'x-line' if r1 > r2_ else ('tie' if r1 == r2_ else 'y-line'))
+    return post
+
+
 def make_lf_r2_post(R2enum):
     def post(ctx, original, args, kwargs, result):
         b = bind(('x', 'y', 't'), {'t': R2enum.classic}, args, kwargs)
@@ -612,6 +652,8 @@ def setup(ctx, mods):
     install.monitor(ctx, 'linear_fit', 'linear_fit_residuals_points', make_fit_residuals_post(True))
     install.monitor(ctx, 'linear_fit', 'linear_hv_residuals', make_hv_post(False))
     install.monitor(ctx, 'linear_fit', 'linear_hv_residuals_points', make_hv_post(True))
+    install.monitor(ctx, 'linear_fit', 'linear_fit_transform', make_fit_transform_post(False))
+    install.monitor(ctx, 'linear_fit', 'linear_fit_transform_points', make_fit_transform_post(True))
     install.monitor(ctx, 'linear_fit', 'r2', make_lf_r2_post(R2enum))
     install.monitor(ctx, 'linear_fit', 'r2_points', make_r2_points_post(R2enum))
     return {}
@@ -695,8 +737,11 @@ def gen_x(rng, n, want_int):
 
 def gen_case(rng, tier, shard, nshards):
     n = int(rng.integers(1, 5)) if rng.random() < 0.15 else int(rng.integers(1, 201))
-    if rng.random() < 0.004:
+    if rng.random() < 0.008:
         n = int(rng.integers(3000, 20000))        # long vectors: blocked / pairwise / parallel code paths only show there
+        if rng.random() < 0.6:
+            # ... at block boundaries m * 2^k - 1, + 0, + 1 (1024 .. 32768)
+            n = int(rng.integers(1, 5)) * 2 ** int(rng.integers(10, 14)) + int(rng.integers(-1, 2))
     cls = pick(rng, CLASSES)
     mag = 10.0 ** rng.uniform(-3, 6)
     if rng.random() < 0.08:
@@ -859,6 +904,17 @@ def run_case(ctx, mods, case):
     _call(ctx, 'linear_fit.linear_fit_residuals_points', lf.linear_fit_residuals_points, pts)
     _call(ctx, 'linear_fit.linear_hv_residuals', lf.linear_hv_residuals, x, y)
     _call(ctx, 'linear_fit.linear_hv_residuals_points', lf.linear_hv_residuals_points, pts)
+    for vertical in (False, True):
+        _call(ctx, 'linear_fit.linear_fit_transform', lf.linear_fit_transform, x, y, vertical)
+        _call(ctx, 'linear_fit.linear_fit_transform_points', lf.linear_fit_transform_points, pts, vertical)
+    if n >= 3 and case['x'].dtype.kind == 'f' and n % 3 == 0:
+        # a segment that starts and ends on one abscissa (the case the vertical option exists for): the y-on-x line is
+        # degenerate there and the x-on-y line has to be chosen whenever its residuals are smaller
+        xv = np.array(case['x'], dtype=float)
+        xv[-1] = xv[0]
+        if n % 2:
+            xv[:] = xv[0]          # a cliff of the curve: every sample on one abscissa
+        _call(ctx, 'linear_fit.linear_fit_transform', lf.linear_fit_transform, xv, y, True)
     if n >= 2:
         kinds = [R2.classic] + ([R2.adjusted] if n >= 3 else [])
         for kind in kinds:
